@@ -2379,6 +2379,10 @@ _g_ir_node_build_typelib (GIrNode         *node,
 	    blob->size = sizeof (gdouble);
 	    DO_ALIGNED_COPY(&data[blob->offset], parse_float_value (constant->value), gdouble);
 	    break;
+	  case GI_TYPE_TAG_UNICHAR:
+	    blob->size = 4;
+	    *(guint32*)&data[blob->offset] = (guint32) parse_uint_value (constant->value);
+	    break;
 	  case GI_TYPE_TAG_UTF8:
 	  case GI_TYPE_TAG_FILENAME:
 	    blob->size = strlen (constant->value) + 1;
